@@ -506,7 +506,7 @@ fn rand_op(rng: &mut Rng, c: usize, r: usize, invalid: bool, copy_ok: bool) -> O
             8 => Op::ColMut(bump(rng, c), rand_walk(rng)),
             9 => Op::CellsMut(rand_walk(rng)),
             10 => Op::CloneFromSlice(if invalid { rng.below(3) as isize - 1 } else { 0 }),
-            11 => Op::CloneFromToodee(*rng.pick(&[SrcKind::Owned, SrcKind::View, SrcKind::ViewMut]), if invalid && rng.chance(1, 3) { SizeRel::ColsPlus1 } else { SizeRel::Same }),
+            11 => Op::CloneFromToodee(*rng.pick(&[SrcKind::Owned, SrcKind::View, SrcKind::ViewMut]), if invalid && rng.chance(1, 3) { *rng.pick(&[SizeRel::ColsPlus1, SizeRel::RowsMinus1]) } else { SizeRel::Same }),
             12 => {
                 let v = *rng.pick(&[SortVar::RowOrd, SortVar::ByRow, SortVar::ByRowKey]);
                 Op::Sort(v, bump(rng, r), rng.chance(1, 2))
@@ -519,7 +519,7 @@ fn rand_op(rng: &mut Rng, c: usize, r: usize, invalid: bool, copy_ok: bool) -> O
             15 => Op::FlipRows,
             16 => Op::FlipCols,
             17 => Op::CopyFromSlice(if invalid { rng.below(3) as isize - 1 } else { 0 }),
-            18 => Op::CopyFromToodee(*rng.pick(&[SrcKind::Owned, SrcKind::View, SrcKind::ViewMut]), if invalid && rng.chance(1, 3) { SizeRel::RowsPlus1 } else { SizeRel::Same }),
+            18 => Op::CopyFromToodee(*rng.pick(&[SrcKind::Owned, SrcKind::View, SrcKind::ViewMut]), if invalid && rng.chance(1, 3) { *rng.pick(&[SizeRel::RowsPlus1, SizeRel::RowsMinus1, SizeRel::ColsMinus1]) } else { SizeRel::Same }),
             _ => {
                 let (s, e) = rand_window(rng, c, r);
                 let w = e.0 - s.0;
